@@ -69,7 +69,63 @@ def work(job):
     return dict(out, status="inconclusive", why="CrossHair: %s %s" % (v, r["message"][-200:]))
 
 
+def complete_with_defaults(spec):
+    """the specification's own (partial) mapping with every omitted entry written out as its default"""
+    full = expected_default_mapping(spec)
+    m = copy.deepcopy(spec.get("mapping") or {})
+    out = {}
+    out["rank-order"] = dict(full["rank-order"], **(m.get("rank-order") or {}))
+    out["loop-order"] = dict(full["loop-order"], **(m.get("loop-order") or {}))
+    for k in ("partitioning", "spacetime"):
+        if m.get(k):
+            out[k] = m[k]
+    return out
+
+
+def work_partial(job):
+    """a partial mapping (entries for some tensors / Einsums only) == the same mapping completed with the defaults"""
+    spec = job["spec"]
+    base = {"name": "text-partial/" + spec["name"], "concrete": True}
+    full = copy.deepcopy(spec)
+    full["mapping"] = complete_with_defaults(spec)
+    try:
+        ref = e1.compile_spec(full)
+    except e1.Rejected as r:
+        return dict(base, status="rejected", why=str(r))
+    try:
+        t = e1.compile_spec(spec)
+    except e1.Rejected as r:
+        return dict(base, status="violation", confirmed=True, why="partial mapping rejected (%s) although the completed mapping compiles" % r,
+                    sig={"engine": "text", "what": "partial"}, replay={"spec": spec, "partial": True})
+    if t != ref:
+        import difflib
+        d = "\n".join(list(difflib.unified_diff(ref.split("\n"), t.split("\n"), "defaults written out", "as given", lineterm="", n=0))[:12])
+        return dict(base, status="violation", confirmed=True, why="partial mapping emits different text than the mapping completed with the defaults:\n%s" % d,
+                    sig={"engine": "text", "what": "partial"}, replay={"spec": spec, "partial": True})
+    return dict(base, status="ok")
+
+
+def partial_specs():
+    g = {"A": ["K", "M"], "B": ["K", "N"], "T": ["M", "N"], "C": ["K", "M"], "D": ["K", "N"], "Z": ["M", "N"], "E": ["N"], "Y": ["M"]}
+    two_same = ["T[m, n] = A[k, m] * B[k, n]", "Z[m, n] = C[k, m] * D[k, n]"]
+    two_diff = ["T[m, n] = A[k, m] * B[k, n]", "Y[m] = T[m, n] * E[n]"]
+    out = []
+    for nm, exprs, m in (
+        ("lo-first-only/same-ranks", two_same, {"loop-order": {"T": ["K", "M", "N"]}}),
+        ("lo-first-only/other-ranks", two_diff, {"loop-order": {"T": ["K", "N", "M"]}}),
+        ("lo-second-only", two_same, {"loop-order": {"Z": ["N", "K", "M"]}}),
+        ("ro-one-tensor", two_same, {"rank-order": {"A": ["M", "K"]}}),
+        ("ro+lo-first", two_diff, {"rank-order": {"T": ["N", "M"]}, "loop-order": {"T": ["N", "M", "K"]}}),
+        ("part-first-lo-first", two_diff, {"partitioning": {"T": {"K": ["uniform_shape(2)"]}}, "loop-order": {"T": ["K1", "M", "N", "K0"]}}),
+        ("spacetime-first-only", two_same, {"loop-order": {"T": ["K", "M", "N"]}, "spacetime": {"T": {"space": ["M"], "time": ["K", "N"]}}}),
+    ):
+        out.append({"name": "partial/" + nm, "decl": g, "exprs": exprs, "mapping": m, "extents": {}})
+    return out
+
+
 def work_text(job):
+    if job.get("partial"):
+        return work_partial(job)
     spec = job["spec"]
     base = {"name": "text/" + spec["name"], "concrete": True}
     explicit = copy.deepcopy(spec)
@@ -177,6 +233,8 @@ def run(tier, seed):
     jobs.sort(key=lambda j: -j["timeout"])
     for s in text_specs(tier, seed):
         jobs.append({"kind": "text", "spec": s, "name": s["name"]})
+    for s in partial_specs():
+        jobs.append({"kind": "text", "spec": s, "name": s["name"], "partial": True})
     res = runner.pmap(work, jobs)
     ch = [r for r in res if not r.get("concrete")]
     cov = {
@@ -200,7 +258,7 @@ def run(tier, seed):
 def replay(data):
     rp = data["replay"]
     if "spec" in rp:
-        r = work_text({"spec": rp["spec"]})
+        r = work_text({"spec": rp["spec"], "partial": rp.get("partial", False)})
         print(r.get("why") or "ok")
         return 1 if r["status"] == "violation" else 0
     for k, val in (rp.get("env") or {}).items():
